@@ -197,8 +197,23 @@ func genC02(r *prng) *plan {
 				// a getter whose lookup is answered late by a lying peer while the genuine item arrives by offer
 				p.Ops = append(p.Ops, opSpec{K: "race", N: []int64{int64(1 + r.intn(2)), int64(r.intn(23)), int64(500 + r.intn(4000)), int64(r.u64() >> 1)}})
 			}
+		} else if r.chance(15) {
+			// the genuine and a forged copy of the same item are validated at the same time: one arrives by
+			// offer, the other as the answer to a getter's lookup
+			p.Ops = append(p.Ops, opSpec{K: "pair", N: []int64{int64(1 + r.intn(2)), int64(r.intn(23)), int64(r.intn(2)), int64(r.u64() >> 1)}})
 		} else {
 			p.Ops = append(p.Ops, opSpec{K: "get", N: []int64{int64(r.intn(4)), int64(r.intn(23)), int64(r.intn(21)), int64(r.intn(3)), int64(r.u64() >> 1)}})
+		}
+	}
+	if r.chance(35) {
+		// validations lose the processor at seeded points (after every n-th allocation on average), and
+		// the receiver takes datagrams off the wire in batches, so that several validations are in
+		// progress at the same instant
+		p.Cfg["preempt"] = int64([]int{1, 2, 3, 5, 9, 17, 40}[r.intn(7)])
+		p.Cfg["quantum"] = int64([]int{0, 5, 20, 50}[r.intn(4)])
+		p.Cfg["align"] = int64([]int{0, 200, 200, 1000}[r.intn(4)])
+		for i := 0; i < 3+r.intn(5); i++ {
+			p.Ops = append(p.Ops, opSpec{K: "pair", N: []int64{int64(1 + (r.intn(3)+1)/2), int64(r.intn(23)), int64(r.intn(2)), int64(r.u64() >> 1)}})
 		}
 	}
 	return p
@@ -303,6 +318,27 @@ func runC02(seed uint64) {
 	if faults {
 		w.net.faultsOn = true
 		w.net.faults = netFaults{MinLatency: 2 * time.Millisecond, Jitter: 30 * time.Millisecond, DropPct: 3, DupPct: 3}
+	}
+	pre := uint64(p.cfg("preempt"))
+	getterPreempts := uint64(0)
+	if pre > 0 {
+		w.res.Class += "+preempt"
+		w.net.faults.Quantum = time.Duration(p.cfg("quantum")) * time.Millisecond
+		for _, ni := range V.nets {
+			if ni.val != nil {
+				ni.val.preemptEvery, ni.val.preemptSeed, ni.val.alignMs = pre, seed^0x93e, p.cfg("align")
+			}
+		}
+	}
+	// preemptible runs fn on the calling goroutine with seeded preemption (in the preempt class)
+	preemptible := func(salt uint64, fn func()) {
+		if pre == 0 {
+			fn()
+			return
+		}
+		verifPreemptMe(pre, seed^salt)
+		defer func() { getterPreempts += verifPreemptMe(0, 0) }()
+		fn()
 	}
 
 	itemOf := func(b *hblock, kind int64) (key, val []byte) {
@@ -594,6 +630,91 @@ func runC02(seed uint64) {
 			w.abstract("dupoffer i%d acc%d", op.n(1)%4, acc)
 			w.probe("dup_key_offers")
 			nOps++
+		case "pair":
+			getter := op.n(0) // 1 body, 2 receipts
+			item := []int64{0, 2, 3}[getter]
+			// a genuine block whose item travels over a stream
+			var eligible []*hblock
+			for _, b := range blocks {
+				if _, v := itemOf(b, item); synthOf(b) == nil && b.genuine && len(v) >= 1200 {
+					eligible = append(eligible, b)
+				}
+			}
+			if len(eligible) == 0 {
+				continue
+			}
+			blk := eligible[int(op.n(1))%len(eligible)]
+			key, val := itemOf(blk, item)
+			var forged []byte
+			fdesc := "one bit flipped"
+			if nv, d := fieldMutate(rs, item, val, 14+rs.intn(4)); nv != nil && rs.chance(85) {
+				forged, fdesc = nv, d
+			} else {
+				forged = append([]byte{}, val...)
+				forged[rs.intn(len(forged))] ^= byte(1 << uint(rs.intn(8)))
+			}
+			if bind.judge(key, forged) == "" {
+				continue // the mutation happened to leave the content bound
+			}
+			// the header is at hand locally, so that neither validation has to wait for the network
+			w.call("pair-header", 60*time.Second, func() error {
+				_, e := H.offerTo(V.self(), portalwire.History, vv, [][]byte{keyHdrHash(blk.hash)}, [][]byte{blk.hdrVal})
+				return e
+			})
+			w.runFor(3 * time.Second)
+			// mode 0: the lookup is answered with the forged copy, the genuine one is offered;
+			// mode 1: the other way round
+			lookupVal, offerVal, offerer, answerer := forged, val, H, B
+			if op.n(2) == 1 {
+				lookupVal, offerVal, offerer, answerer = val, forged, B, H
+			}
+			none := map[string][]byte{}
+			for k, v := range hAll {
+				if k != string(key) {
+					none[k] = v
+				}
+			}
+			H.content[hpid] = none
+			B.fallback = nil
+			B.content[hpid] = map[string][]byte{}
+			answerer.content[hpid] = map[string][]byte{string(key): lookupVal}
+			if answerer == H {
+				withKey := map[string][]byte{string(key): lookupVal}
+				for k, v := range none {
+					withKey[k] = v
+				}
+				H.content[hpid] = withKey
+			}
+			var gotBody *types.Body
+			var gotRcpt []*types.Receipt
+			var gerr error
+			tg := w.spawn("pair-get", func() error {
+				preemptible(uint64(opi)*131+7, func() {
+					if getter == 1 {
+						gotBody, gerr = V.histNet.GetBlockBody(blk.hash[:])
+					} else {
+						gotRcpt, gerr = V.histNet.GetReceipts(blk.hash[:])
+					}
+				})
+				return nil
+			})
+			to := w.spawn("pair-offer", func() error {
+				_, e := offerer.offerTo(V.self(), portalwire.History, vv, [][]byte{key}, [][]byte{offerVal})
+				return e
+			})
+			w.runUntil(func() bool { return tg.done && to.done }, 250*time.Second)
+			w.runFor(8 * time.Second)
+			H.content[hpid] = hAll
+			B.content[hpid] = map[string][]byte{}
+			w.op("pair#%d %s of %s: forged copy (%s) %s, genuine copy %s at the same time -> getter err=%v", opi, []string{"", "GetBlockBody", "GetReceipts"}[getter], blk.name, fdesc,
+				[]string{"answers the lookup", "is offered"}[op.n(2)%2], []string{"is offered", "answers the lookup"}[op.n(2)%2], gerr != nil)
+			w.abstract("pair g%d m%d err=%v", getter, op.n(2), gerr != nil)
+			w.probe("pair_validations")
+			if !tg.done {
+				w.violate("C02", "call-hung", "getter running beside an offer of the same item did not return")
+			}
+			checkGot(blk, nil, gotBody, gotRcpt, gerr)
+			nOps++
 		case "race":
 			blk := blocks[int(op.n(1))%len(blocks)]
 			if synthOf(blk) != nil || !blk.genuine {
@@ -624,11 +745,13 @@ func runC02(seed uint64) {
 			var gotRcpt []*types.Receipt
 			var gerr error
 			tg := w.spawn("race-get", func() error {
-				if getter == 1 {
-					gotBody, gerr = V.histNet.GetBlockBody(blk.hash[:])
-				} else {
-					gotRcpt, gerr = V.histNet.GetReceipts(blk.hash[:])
-				}
+				preemptible(uint64(opi)*131+9, func() {
+					if getter == 1 {
+						gotBody, gerr = V.histNet.GetBlockBody(blk.hash[:])
+					} else {
+						gotRcpt, gerr = V.histNet.GetReceipts(blk.hash[:])
+					}
+				})
 				return nil
 			})
 			w.runFor(20 * time.Millisecond)
@@ -655,6 +778,19 @@ func runC02(seed uint64) {
 	_ = checkGot
 	w.runUntil(func() bool { return w.inflightTasks == 0 }, 200*time.Second)
 	w.runFor(15 * time.Second)
+	if pre > 0 {
+		n := getterPreempts
+		for _, ni := range V.nets {
+			if ni.val != nil {
+				n += ni.val.preempts
+			}
+		}
+		w.res.Faults["preemption"] = int(n)
+		if hist.val.stalls > 0 {
+			w.res.Faults["goroutine_stall"] = hist.val.stalls
+		}
+	}
+	w.res.Probes["validations_overlapping"] = hist.val.overlaps
 	for _, pr := range V.panics {
 		w.violate("C02", "panic", "%s panicked instead of rejecting with an error: %v @ %s", pr.where, pr.val, shisuiFrames(pr.stack))
 		w.violate("C01", "panic", "%s panicked: %v @ %s", pr.where, pr.val, shisuiFrames(pr.stack))
